@@ -218,7 +218,7 @@ type gateCase struct {
 
 func gateCases() []gateCase {
 	var r []gateCase
-	for _, tpl := range []string{"submit", "submit-after-burst", "resize-down", "resize-down-wait", "joinall", "waitall"} {
+	for _, tpl := range []string{"submit", "submit-after-burst", "resize-down", "resize-down-wait", "joinall", "waitall", "resize-zero"} {
 		for _, h := range workerHold {
 			for _, u := range otherUntil {
 				for _, w := range []int{1, 2, 3} {
@@ -300,6 +300,11 @@ func runGate(c *core.Ctx, idx int, gc gateCase) {
 			final = gc.workers - 1
 			s.add(0, 0)
 			s.tp.SetWorkerCount(final, false)
+		case "resize-zero":
+			// no task is owed afterwards, but the count has to converge to 0
+			// without outside help even if a worker is in its idle window
+			final = 0
+			s.tp.SetWorkerCount(0, false)
 		case "resize-down-wait":
 			final = gc.workers - 1
 			s.add(0, 0)
@@ -383,9 +388,9 @@ func runGate(c *core.Ctx, idx int, gc gateCase) {
 	// worker-count convergence (only meaningful when nothing is stuck already)
 	if res == "done" {
 		switch gc.template {
-		case "resize-down", "resize-down-wait", "joinall":
+		case "resize-down", "resize-down-wait", "joinall", "resize-zero":
 			r2, v2 := s.awaitOrStuck(func() bool { return s.tp.WorkerCount() == final }, 3000)
-			if gc.template != "resize-down" && s.tp.WorkerCount() != final {
+			if gc.template != "resize-down" && gc.template != "resize-zero" && s.tp.WorkerCount() != final {
 				c.Violation("count-after-return:"+gc.template, fmt.Sprintf("%s returned with %d workers, requested %d", gc.template, s.tp.WorkerCount(), final), stream, idx, detail)
 			} else if r2 == "stuck" {
 				detail["live_workers"] = len(v2.LiveWorkers)
